@@ -144,12 +144,12 @@ pub fn meta(args: &Args) -> Value {
         "floor": {"quick": 60, "thorough": 2000},
         "case_timeout_s": 120,
         "hang_is_violation": false,
-        "budget": {"quick": args.cases(400, 30000)},
+        "budget": {"quick": args.cases(2400, 60000)},
     })
 }
 
 pub fn run(args: &Args, out: &mut Out) {
-    let total = args.cases(400, 30000);
+    let total = args.cases(2400, 60000);
     drive(args, out, total, |_idx, rng| Some(gen_case(args, rng, true)), exec);
 }
 
